@@ -46,11 +46,12 @@ type comp struct{ Ords []int }
 // gcomp is a composite that is itself Gateable (must be refused by the filter).
 type gcomp struct {
 	comp
-	c *ctrl
+	c     *ctrl
+	flush bool // a Gateable composite is refused whether or not it calls itself a flush event
 }
 
 func (g *gcomp) GetID() string    { return "composite" }
-func (g *gcomp) FlushEvent() bool { return false }
+func (g *gcomp) FlushEvent() bool { return g.flush }
 func (g *gcomp) ComposeFrom([]*eventlogger.Event) (eventlogger.EventType, interface{}, error) {
 	return "composite", nil, nil
 }
@@ -72,7 +73,7 @@ func (p *gpay) ComposeFrom(events []*eventlogger.Event) (eventlogger.EventType, 
 		return "", nil, errInjected
 	}
 	if c.failKind == "gateable" && c.failN == c.composes {
-		return "composite", &gcomp{comp: comp{Ords: ords}, c: c}, nil
+		return "composite", &gcomp{comp: comp{Ords: ords}, c: c, flush: len(ords)%2 == 1}, nil
 	}
 	return "composite", &comp{Ords: ords}, nil
 }
